@@ -3,6 +3,7 @@ import itertools
 import hashlib
 import os.path
 import inspect
+import types
 from importlib.machinery import SourceFileLoader
 
 
@@ -156,8 +157,9 @@ def unpack_impl(pkt, raw, offset, **k):
             try:
                 module = SourceFileLoader(module_name,
                                           module_pathname).load_module()
-            except ImportError:
-                pass
+            except Exception:
+                # a truncated, broken or foreign file is as good as no file
+                module = None
 
         # If no previously written module exists or its cooke does not match
         # ours, recreate the file and reload it
@@ -176,15 +178,32 @@ def unpack_impl(pkt, raw, offset, **k):
             # creates folder to host our generated code
             os.makedirs(folder, exist_ok=True)
 
-            with open(module_pathname, 'w') as module_file:
-                module_file.write(import_code)
-                module_file.write(cookie_code)
-                module_file.write(pack_code)
-                module_file.write(unpack_code)
+            # write the module aside and rename it into place so nobody
+            # can ever see (and load) a half written file
+            # the cookie goes last: a file that has it is a complete file
+            source = import_code + pack_code + unpack_code + cookie_code
+            tmp_pathname = "%s.%i.tmp" % (module_pathname, os.getpid())
+            with open(tmp_pathname, 'w') as module_file:
+                module_file.write(source)
 
-            # load it (again)
-            module = SourceFileLoader(module_name,
-                                      module_pathname).load_module()
+            os.replace(tmp_pathname, module_pathname)
+
+            # load it (again); somebody else may have replaced the file in
+            # the meantime with the code of another packet class so we trust
+            # in it only if it carries our cookie
+            try:
+                module = SourceFileLoader(module_name,
+                                          module_pathname).load_module()
+            except Exception:
+                module = None
+
+            if not module or getattr(
+                module, 'BISTURI_PACKET_COOKIE', None
+            ) != cookie:
+                module = types.ModuleType(module_name)
+                exec(
+                    compile(source, module_pathname, 'exec'), module.__dict__
+                )
 
         from bisturi.packet import Packet
         if self.generate_for_pack and (
